@@ -175,6 +175,23 @@ class PEval(object):
                                 self._pfield[re.sub(r'\[[^\]]*\]', '[]', c[0])] = b.field
         return self._pfield.get(re.sub(r'\[[^\]]*\]', '[]', key))
 
+    @staticmethod
+    def _distinct_elements(a, b):
+        """paths a and b differ only in a constant array index: provably different objects"""
+        import re
+        pa = re.split(r'(\[\-?\d+\])', a)
+        pb = re.split(r'(\[\-?\d+\])', b)
+        if len(pa) != len(pb):
+            return False
+        diff = False
+        for x, y in zip(pa, pb):
+            if x != y:
+                if x.startswith('[') and y.startswith('['):
+                    diff = True
+                else:
+                    return False
+        return diff
+
     def _key_hit(self, key, flds):
         """may a store to one of the fields `flds` change env path `key`?"""
         fid = self.field_of_key(key)
@@ -270,6 +287,8 @@ class PEval(object):
         # may-alias: other paths ending in the same field are forgotten
         if fld is not None:
             for k in [k for k in env if k[0] == 'p' and k[1] != key and self._key_hit(k[1], set([fld]))]:
+                if self._distinct_elements(k[1], key):
+                    continue
                 env.pop(k, None)
         if val is None:
             env.pop(('p', key), None)
@@ -322,6 +341,10 @@ class PEval(object):
                     for k in [k for k in env if k[0] == 'p']:
                         if self._key_hit(k[1], fl):
                             env.pop(k, None)
+                post = self.callvals.get('post:%s#%d' % (name, nth), self.callvals.get('post:%s' % name))
+                if post:
+                    for pk, pv in post.items():
+                        env[('p', pk)] = pv
                 for ai, a in enumerate(n.kids[1:]):
                     a = strip(a)
                     if a.k == 'un' and a.op == '&':
@@ -374,7 +397,7 @@ class PEval(object):
             if k.startswith('call:'):
                 self.callvals[k[5:]] = v
                 continue
-            if k.startswith('out:'):
+            if k.startswith('out:') or k.startswith('post:'):
                 self.callvals[k] = v
                 continue
             if k in self.pidx:
